@@ -123,10 +123,11 @@ def serial_spreading():
     bad = []
     for mod, D in ((m2, 2), (m3, 3)):
         for ncomp in (1, D):
-            f = getattr(mod, f"generate_lagrangian_to_eulerian_grid_interpolation_kernel_{D}d")(num_lag_nodes=2, interp_kernel_width=2, n_components=ncomp)
-            opts = getattr(f, "targetoptions", {})
-            if opts.get("parallel"):
-                bad.append((D, ncomp))
+            for nmark in (2, 300, 5000, 70000):      # small bodies, rods, dense surface grids
+                f = getattr(mod, f"generate_lagrangian_to_eulerian_grid_interpolation_kernel_{D}d")(num_lag_nodes=nmark, interp_kernel_width=2, n_components=ncomp)
+                opts = getattr(f, "targetoptions", {})
+                if opts.get("parallel"):
+                    bad.append((D, ncomp, nmark))
     return bad
 
 
